@@ -114,7 +114,11 @@ class Walker(object):
                 n = rng.choice([1, 1, 2, 3])
                 fids = list(range(self.fid + 1, self.fid + 1 + n))
                 self.fid += n
-                r.user_gen(fids)
+                # now and then the source of the message fails at some fragment (or nothing can be produced at all)
+                fail_at = rng.randint(0, n - 1) if rng.random() < 0.15 else None
+                if fail_at == 0 and rng.random() < 0.5:
+                    fids = []
+                r.user_gen(fids, fail_at=fail_at)
             elif k == 'RJ':
                 r.user_put('RJ', [rng.choice([1, 2]), rng.choice([1, 2, 3]), rng.choice([1, 2, 3, 7])])
             elif k == 'AB':
@@ -222,8 +226,10 @@ def replay_behaviour(beh, seed=0):
             elif act == 'MCUser':
                 it = stt['uq'][-1]
                 if it['k'] == 'GEN':
-                    n = len(it['frags'])
-                    run.user_gen(list(range(fid, fid + n)))
+                    kinds = [f_['k'] for f_ in it['frags']]
+                    fail_at = kinds.index('BAD') if 'BAD' in kinds else None
+                    n = len(it['frags']) if fail_at is None else fail_at
+                    run.user_gen(list(range(fid, fid + n)), fail_at=fail_at)
                     fid += n
                 elif it['k'] in ('RJ', 'AB'):
                     run.user_put(it['k'], it['f'])
